@@ -5,6 +5,7 @@
 -/
 import RxModel.Model.Compile
 import RxModel.Spec.Repl
+import RxModel.Proofs.MiscLemmas
 namespace Rx.C07
 open Rx
 
@@ -18,9 +19,16 @@ def flagsOK (xsd : Bool) : List Nat → Bool
   | [] => true
   | c :: cs => if c == 59 then cs.all isTailFlag else isMainFlag xsd c && flagsOK xsd cs
 
+theorem isMainFlag_eq : isMainFlag = isMainFlag' := rfl
+theorem isTailFlag_eq : isTailFlag = isTailFlag' := rfl
+theorem flagsOK_eq (xsd : Bool) (fs : List Nat) : flagsOK xsd fs = flagsOK' xsd fs := by
+  induction fs with
+  | nil => rfl
+  | cons c cs ih => simp only [flagsOK, flagsOK', ih, isMainFlag_eq, isTailFlag_eq]
+
 /-- `ReFlags::new` succeeds exactly on those (otherwise `Error::InvalidFlags`) -/
 theorem flags_spec (fs : List Nat) (xsd : Bool) : (parseFlags fs xsd).isSome = flagsOK xsd fs := by
-  sorry
+  rw [flagsOK_eq]; exact parseFlagsGo_isSome fs { xsd := xsd }
 
 /-- and the flags it returns are the letters that occur before the `;` -/
 theorem flags_values (fs : List Nat) (xsd : Bool) (fl : Flags) (h : parseFlags fs xsd = some fl) :
@@ -30,37 +38,52 @@ theorem flags_values (fs : List Nat) (xsd : Bool) (fl : Flags) (h : parseFlags f
     fl.singleLine = (fs.takeWhile (· != 59)).contains 115 ∧
     fl.allowWs = (fs.takeWhile (· != 59)).contains 120 ∧
     fl.literal = (fs.takeWhile (· != 59)).contains 113 := by
-  sorry
+  simpa using parseFlagsGo_values fs { xsd := xsd } fl h
 
 /-- an unknown flag letter is rejected -/
 theorem flags_unknown (pre post : List Nat) (c : Nat) (xsd : Bool)
     (hpre : pre.all (isMainFlag xsd) = true) (hc : isMainFlag xsd c = false) (hsemi : c ≠ 59) :
-    parseFlags (pre ++ c :: post) xsd = none := by
-  sorry
+    parseFlags (pre ++ c :: post) xsd = none :=
+  parseFlagsGo_unknown pre post c xsd hpre hc hsemi { xsd := xsd } rfl
 
 /-- `Regex::new` reports InvalidFlags exactly for those flag strings -/
 theorem new_invalid_flags (env : Env) (p fs : List Nat) (xsd opt : Bool) :
     Regex.new env p fs xsd opt = .err .invalidFlags ↔ flagsOK xsd fs = false := by
-  sorry
+  rw [← flags_spec]
+  constructor
+  · intro h
+    rcases Regex.new_err _ _ _ _ _ _ h with ⟨_, hn⟩ | ⟨h1, _⟩
+    · simp [hn]
+    · rcases h1 with h1 | h1 <;> cases h1
+  · intro h
+    have hn : parseFlags fs xsd = none := by
+      cases hp : parseFlags fs xsd with
+      | none => rfl
+      | some fl => rw [hp] at h; simp at h
+    simp [Regex.new, hn]
 
 /-! `{m}`, `{m,}`, `{m,n}` -/
 
 /-- a decimal numeral: a non-empty run of ASCII digits (leading zeros allowed) -/
 def isNumeral (ds : List Nat) : Bool := !ds.isEmpty && ds.all isDigit
 
+theorem isNumeral_iff {ds : List Nat} (h : isNumeral ds = true) : ds ≠ [] ∧ ds.all isDigit = true := by
+  simp only [isNumeral, Bool.and_eq_true, Bool.not_eq_true', List.isEmpty_eq_false_iff] at h
+  exact h
+
 /-- `{n}` is accepted with min = max = n (n < 2^64) -/
 theorem bracket_exact (c : PC) (s : PS) (ds rest : List Nat) (hds : isNumeral ds = true)
     (hn : Spec.digitsVal ds ≤ usizeMax)
     (hpat : c.pat.drop s.idx = 123 :: ds ++ 125 :: rest) :
-    bracket c s = .ok () { s with idx := s.idx + ds.length + 2, bmin := Spec.digitsVal ds, bmax := Spec.digitsVal ds } := by
-  sorry
+    bracket c s = .ok () { s with idx := s.idx + ds.length + 2, bmin := Spec.digitsVal ds, bmax := Spec.digitsVal ds } :=
+  bracket_exact' c s ds rest (isNumeral_iff hds).1 (isNumeral_iff hds).2 hn (by simpa using hpat)
 
 /-- `{n,}` is accepted with max = usize::MAX -/
 theorem bracket_open (c : PC) (s : PS) (ds rest : List Nat) (hds : isNumeral ds = true)
     (hn : Spec.digitsVal ds ≤ usizeMax)
     (hpat : c.pat.drop s.idx = 123 :: ds ++ 44 :: 125 :: rest) :
-    bracket c s = .ok () { s with idx := s.idx + ds.length + 3, bmin := Spec.digitsVal ds, bmax := usizeMax } := by
-  sorry
+    bracket c s = .ok () { s with idx := s.idx + ds.length + 3, bmin := Spec.digitsVal ds, bmax := usizeMax } :=
+  bracket_open' c s ds rest (isNumeral_iff hds).1 (isNumeral_iff hds).2 hn (by simpa using hpat)
 
 /-- `{n,m}` is accepted iff n ≤ m -/
 theorem bracket_range (c : PC) (s : PS) (ds es rest : List Nat) (hds : isNumeral ds = true) (hes : isNumeral es = true)
@@ -68,25 +91,29 @@ theorem bracket_range (c : PC) (s : PS) (ds es rest : List Nat) (hds : isNumeral
     (hpat : c.pat.drop s.idx = 123 :: ds ++ 44 :: es ++ 125 :: rest) :
     bracket c s = if Spec.digitsVal ds ≤ Spec.digitsVal es
                   then .ok () { s with idx := s.idx + ds.length + es.length + 3, bmin := Spec.digitsVal ds, bmax := Spec.digitsVal es }
-                  else .err .syntax := by
-  sorry
+                  else .err .syntax :=
+  bracket_range' c s ds es rest (isNumeral_iff hds).1 (isNumeral_iff hds).2 (isNumeral_iff hes).1 (isNumeral_iff hes).2
+    hn hm (by simpa using hpat)
 
 /-- a bound of 2^64 or more is rejected -/
 theorem bracket_overflow (c : PC) (s : PS) (ds rest : List Nat) (hds : isNumeral ds = true)
     (hn : Spec.digitsVal ds > usizeMax) (hrest : ∀ x, rest.head? = some x → isDigit x = false)
     (hpat : c.pat.drop s.idx = 123 :: ds ++ rest) :
-    bracket c s = .err .syntax := by
-  sorry
+    bracket c s = .err .syntax :=
+  bracket_overflow' c s ds rest (isNumeral_iff hds).1 (isNumeral_iff hds).2 hn hrest (by simpa using hpat)
 
 /-- whatever `bracket` accepts has `min ≤ max` and both below 2^64 -/
 theorem bracket_ok_bounds (c : PC) (s s' : PS) (h : bracket c s = .ok () s') :
-    s'.bmin ≤ s'.bmax ∧ s'.bmax ≤ usizeMax ∧ s.idx < s'.idx := by
-  sorry
+    s'.bmin ≤ s'.bmax ∧ s'.bmax ≤ usizeMax ∧ s.idx < s'.idx :=
+  bracket_ok_bounds' c s s' h
 
 /-- `bracket` never reports `Error::Internal` when called at a `{` -/
 theorem bracket_no_internal (c : PC) (s : PS) (hlt : s.idx < c.len) (hch : c.at s.idx = 123) :
     bracket c s ≠ .err .internal := by
-  sorry
+  intro h
+  rcases bracket_err c s _ h with h1 | ⟨_, h2⟩
+  · cases h1
+  · exact h2 ⟨hlt, hch⟩
 
 example : flagsOK false [105, 113, 59, 103] = true ∧ flagsOK true [113] = false ∧ flagsOK false [122] = false := by decide
 
